@@ -56,6 +56,7 @@ namespace
             {
               if(var.scenario == S_VIEW && iface == 0) continue; // sub-range views exist for DenseVector operands only
               if(var.scenario != S_BASE && rep == 1) continue;    // scenarios with one representation of empty blocks
+              if(var.scenario != S_BASE && !std::is_same<DT, double>::value) continue; // scenarios with (double,u64) only
               if(!c.want()) continue;
               set_extreme_exp<DT>();
               const int alphabet = var.alphabet;
@@ -235,7 +236,7 @@ int main(int argc, char** argv)
     "representation of blocks without entries {entry-free, allocated}, interface {native meta vectors, DenseVector}, variant = alphabet {exact, rounding, all-negative, extreme-magnitude} on a fresh object or scenario {other calls first, sub-range views (DenseVector interface), deep clone, weak clone, moved object}, operation {apply, apply_transposed} x {r:=Ax, r:=y+aAx r!=y, r==y}, alpha); every operation is repeated on the filled objects; "
     "non-trivial = matrix has entries and |alpha|>=eps; hash over all of these";
   spec.bounds_quick = "TupleMatrix 2x2 blocks rows(1,2) cols(2,1) and 3x2 blocks (512 patterns each), TupleDiagMatrix<1x2,2x2> (64), PowerDiag<2> blocks 2x1,1x2,2x2 (16,16,256), PowerFull<2,2> blocks 1x2,2x1 (256 each), "
-    "PowerRow<2> 2x2 (256), PowerRow<3> 2x1,1x2 (64 each), PowerCol likewise, SaddlePoint<CSR,CSR,CSR> (256), SaddlePoint<PowerDiag,PowerCol,PowerRow> (1024); (double,u64) and (float,u32); 9 scalars; 9 variants";
+    "PowerRow<2> 2x2 (256), PowerRow<3> 2x1,1x2 (64 each), PowerCol likewise, SaddlePoint<CSR,CSR,CSR> (256), SaddlePoint<PowerDiag,PowerCol,PowerRow> (1024); (double,u64): 9 variants, (float,u32): the 4 alphabets; 9 scalars";
   spec.bounds_thorough = "same as quick (the space is completed in the quick tier)";
   spec.assumptions = {
     "leaves are SparseMatrixCSR (the leaf kernels of all formats are covered by c01_apply_csr / c01_apply_blk)",
